@@ -169,6 +169,8 @@ impl SecretKey {
 }
 impl VerifyingKey {
     #[verifier::external_body] pub fn to_encoded_point(&self, compress: bool) -> (r: EncodedPoint) ensures r.b@ == sec1_form(self.pt@, compress), sec1_valid(r.b@) { unimplemented!() }
+    // VerifyingKey::to_bytes is the compressed SEC1 form (CompressedPoint), whatever form the signer used
+    #[verifier::external_body] pub fn to_bytes(&self) -> (r: [u8; 33]) ensures r@ == sec1_form(self.pt@, true), sec1_valid(r@) { unimplemented!() }
 }
 // what a finalised 32-byte signing digest is (crate::hash::digest_utils::HashDigest, implemented by Sha256r)
 pub trait HashDigest: Sized { spec fn hd_absorbed(&self) -> Seq<u8>; spec fn hd_reversed(&self) -> bool;
